@@ -60,7 +60,14 @@ def copy_carries_everything(ctx):
             continue
         ctx.require(is_param, f"{f.loc(call)}: cannot tell which function this FunctionType(...) copies")
         ctx.touch(f)
+        # FunctionType(code, globals, name=None, argdefs=None, closure=None): positional or by keyword
         args = list(call.args)
+        order = ["code", "globals", "name", "argdefs", "closure"]
+        kwmap = {k.arg: k.value for k in call.keywords if k.arg}
+        args = args + [kwmap.get(nm) for nm in order[len(args):]]
+        while args and args[-1] is None:
+            args.pop()
+        code_arg = args[0] if args else None
 
         def attr_of(e, name):
             return isinstance(e, ast.Attribute) and e.attr == name and dotted(e.value) == srcp
@@ -115,6 +122,25 @@ def copy_carries_everything(ctx):
                 and any(isinstance(t, ast.Attribute) and t.attr == attr and dotted(t.value) == tgt for t in s.targets)
                 and attr_of(s.value, attr)
             ]
+            # ... or copied by a loop over attribute names: for a in (<names>): setattr(copy, a, getattr(original, a))
+            for lp in all_stmts(f.node):
+                if not isinstance(lp, ast.For) or not isinstance(lp.target, ast.Name):
+                    continue
+                it = lp.iter
+                if isinstance(it, ast.Name):
+                    from ..orderdom import _package_constant
+
+                    it = _package_constant(it.id) or it
+                if not (isinstance(it, (ast.Tuple, ast.List)) and any(isinstance(e, ast.Constant) and e.value == attr for e in it.elts)):
+                    continue
+                v = lp.target.id
+                for c2 in ast.walk(lp):
+                    if isinstance(c2, ast.Call) and call_name(c2) == "setattr" and len(c2.args) == 3 and dotted(c2.args[0]) == tgt and dotted(c2.args[1]) == v:
+                        g = c2.args[2]
+                        if isinstance(g, ast.Call) and call_name(g) == "getattr" and len(g.args) == 2 and dotted(g.args[0]) == srcp and dotted(g.args[1]) == v:
+                            # unconditional inside the loop body
+                            if any(isinstance(s2, ast.Expr) and s2.value is c2 for s2 in lp.body):
+                                assigns.append(lp)
             nodes = [cfg.node_of(s) for s in assigns]
             ok = bool(nodes) and cfg.must_reach(cfg.node_of(st), nodes)
             ctx.ob(f"{f.key}:copy:{attr}", f.loc(assigns[0]) if assigns else f.loc(call), f"`{tgt}.{attr}` is assigned from `{srcp}.{attr}` on every path before the copy escapes", ok, f"the copy does not carry {attr} over: {why}")
